@@ -110,7 +110,7 @@ impl GenParams {
             lb_span: 5,
             allow_pred_clause: true,
             allow_overcap: false,
-            dup_vars_permille: 0,
+            dup_vars_permille: std::env::var("VERIF_DUP_PERMILLE").ok().and_then(|v| v.parse().ok()).unwrap_or(100),
             plant_permille: 750,
             allow_reified_incremental_cumulative: false,
             max_tasks: 4,
